@@ -22,7 +22,10 @@
 //!                           "m": after the script the server reads one more line (BEGIN) and then sends a D-Bus
 //!                           signal; the client, if connected, must receive exactly that message.
 //!                           -> "<ok|authfailed|fdfailed|err|panic|hang> S:<hex of all bytes the server received> M:<ok|bad:..|-> W:<n>"
-//! Nothing here sleeps; the only timers are hang detectors (DEADLINE).
+//! Nothing here sleeps; the only timers are hang detectors (deadline(), 4 s unless C17_DEADLINE_MS is set).
+//!
+//! c17 --sigpipe-demo N   demonstration, not part of the check: N child processes with the DEFAULT SIGPIPE disposition
+//!                        call connect_to_bus against a server that closes at accept; prints how many were killed by SIGPIPE.
 
 use rbverif::{hex, unhex};
 use rustbus::connection::ll_conn::DuplexConn;
@@ -33,7 +36,15 @@ use std::os::unix::net::{UnixListener, UnixStream};
 use std::sync::mpsc;
 use std::time::Duration;
 
-const DEADLINE: Duration = Duration::from_secs(4);
+/// hang detector; C17_deadline()_MS overrides it (the check re-runs a script that hit it alone with a longer one)
+fn deadline() -> Duration {
+    static D: std::sync::OnceLock<Duration> = std::sync::OnceLock::new();
+    *D.get_or_init(|| {
+        Duration::from_millis(
+            std::env::var("C17_deadline()_MS").ok().and_then(|v| v.parse().ok()).unwrap_or(4000),
+        )
+    })
+}
 const MAX_HANGS: usize = 3;
 
 fn addr_line(h: &str) -> String {
@@ -191,7 +202,7 @@ fn handshake_line(with_fd: bool, kind: &str, script: &str, probe: bool, dir: &st
             Ok(Ok(mut conn)) => {
                 let m = if probe {
                     match std::panic::catch_unwind(std::panic::AssertUnwindSafe(|| {
-                        conn.recv.get_next_message(Timeout::Duration(DEADLINE))
+                        conn.recv.get_next_message(Timeout::Duration(deadline()))
                     })) {
                         Ok(Ok(msg)) => {
                             // re-marshal what arrived and compare with what was sent
@@ -222,8 +233,8 @@ fn handshake_line(with_fd: bool, kind: &str, script: &str, probe: bool, dir: &st
     let mut written = 0usize; // bytes of a "g" step the kernel accepted
     let mut timed_out = false;
     let (mut s, _) = listener.accept().unwrap();
-    s.set_read_timeout(Some(DEADLINE)).unwrap();
-    s.set_write_timeout(Some(DEADLINE)).unwrap();
+    s.set_read_timeout(Some(deadline())).unwrap();
+    s.set_write_timeout(Some(deadline())).unwrap();
     let mut open = true;
     let mut from = 0usize;
     for (i, st) in steps.iter().enumerate() {
@@ -256,7 +267,7 @@ fn handshake_line(with_fd: bool, kind: &str, script: &str, probe: bool, dir: &st
         if st.garbage {
             let block = [b'x'; 4096];
             let t0 = std::time::Instant::now();
-            while t0.elapsed() < DEADLINE {
+            while t0.elapsed() < deadline() {
                 match s.write(&block) {
                     Ok(n) => written += n,
                     Err(_) => break,
@@ -271,7 +282,7 @@ fn handshake_line(with_fd: bool, kind: &str, script: &str, probe: bool, dir: &st
             if st.lockstep {
                 // the next chunk must arrive in a read of its own: wait until this one has been taken
                 let t0 = std::time::Instant::now();
-                while unread_by_peer(&s) > 0 && t0.elapsed() < DEADLINE {
+                while unread_by_peer(&s) > 0 && t0.elapsed() < deadline() {
                     std::thread::yield_now();
                 }
             } else {
@@ -306,7 +317,7 @@ fn handshake_line(with_fd: bool, kind: &str, script: &str, probe: bool, dir: &st
         }
     }
     // the server has seen the client close (or has given up waiting for it): the result is due
-    let res = rx.recv_timeout(if timed_out { Duration::from_millis(500) } else { DEADLINE });
+    let res = rx.recv_timeout(if timed_out { Duration::from_millis(500) } else { deadline() });
     drop(s);
     drop(listener);
     if let Some(p) = path {
@@ -322,9 +333,73 @@ fn handshake_line(with_fd: bool, kind: &str, script: &str, probe: bool, dir: &st
     format!("{} S:{} M:{} W:{}", class, hex(&got), m, written)
 }
 
+fn pin_to_cpu0() {
+    unsafe {
+        let mut set: nix::libc::cpu_set_t = std::mem::zeroed();
+        nix::libc::CPU_SET(0, &mut set);
+        nix::libc::sched_setaffinity(0, std::mem::size_of::<nix::libc::cpu_set_t>(), &set);
+    }
+}
+
+/// child of the demonstration: SIGPIPE as a non-Rust or `sig_dfl` program has it, same CPU and lower priority than the
+/// server thread so that the server's accept+close runs between the client's connect() and its first sendmsg()
+fn sigpipe_child(name: &str, dfl: bool) -> ! {
+    unsafe {
+        nix::libc::signal(nix::libc::SIGPIPE, if dfl { nix::libc::SIG_DFL } else { nix::libc::SIG_IGN });
+        nix::libc::setpriority(nix::libc::PRIO_PROCESS, 0, 19);
+    }
+    pin_to_cpu0();
+    let addr = nix::sys::socket::UnixAddr::new_abstract(name.as_bytes()).unwrap();
+    let r = DuplexConn::connect_to_bus(addr, false);
+    std::process::exit(if r.is_ok() { 0 } else { 3 })
+}
+
+fn sigpipe_demo(n: usize) {
+    use std::os::linux::net::SocketAddrExt;
+    use std::os::unix::process::ExitStatusExt;
+    let exe = std::env::current_exe().unwrap();
+    for dfl in [true, false] {
+        let (mut killed, mut err, mut other) = (0, 0, 0);
+        for i in 0..n {
+            let name = format!("rbverif-c17-sigpipe-{}-{}", std::process::id(), i);
+            let sa = std::os::unix::net::SocketAddr::from_abstract_name(name.as_bytes()).unwrap();
+            let listener = UnixListener::bind_addr(&sa).unwrap();
+            let srv = std::thread::spawn(move || {
+                pin_to_cpu0();
+                if let Ok((s, _)) = listener.accept() {
+                    drop(s); // the server closes at accept
+                }
+            });
+            let st = std::process::Command::new(&exe)
+                .args(["--sigpipe-child", &name, if dfl { "dfl" } else { "ign" }])
+                .status()
+                .unwrap();
+            let _ = srv.join();
+            if st.signal() == Some(nix::libc::SIGPIPE) {
+                killed += 1
+            } else if st.code() == Some(3) {
+                err += 1
+            } else {
+                other += 1
+            }
+        }
+        println!(
+            "SIGPIPE {}: {} children, {} killed by SIGPIPE, {} returned an error, {} other",
+            if dfl { "default disposition" } else { "ignored" }, n, killed, err, other
+        );
+    }
+}
+
 fn main() {
     std::panic::set_hook(Box::new(|_| {}));
     let args: Vec<String> = std::env::args().collect();
+    if args.len() >= 4 && args[1] == "--sigpipe-child" {
+        sigpipe_child(&args[2], args[3] == "dfl");
+    }
+    if args.len() >= 3 && args[1] == "--sigpipe-demo" {
+        sigpipe_demo(args[2].parse().unwrap());
+        return;
+    }
     let dir = rbverif::conn::scratch_dir();
     if args.len() >= 3 && args[1] == "--uid" {
         let uid: u32 = args[2].parse().unwrap();
